@@ -247,6 +247,10 @@ def run(pid, tier, seed, replay=None):
                 m2 = C.run_model(part.engine, [c2], shards=1)[0]
                 violations.append((part.name, c2, a2, m2, o2))
                 cov["parts"][part.name]["directed_search"] = {"from_disagreement": True, "case": c2}
+        if dis and os.environ.get("VERIF_LIST_VIOLATIONS"):
+            with open(os.path.join(C.WORK, "violations_%s.txt" % pid), "a") as fv:
+                for i in dis:
+                    fv.write("%s\t%s\tdisagreement\n" % (part.engine, cases[i]))
         for i in dis[:3]:
             broken.append("correspondence %s/%s: model and implementation differ on case `%s` "
                           "(impl `%s`, model `%s`)" % (part.engine, part.name, cases[i], impl[i], model[i]))
@@ -286,6 +290,12 @@ def run(pid, tier, seed, replay=None):
     cov["known_findings"] = finding_report
     for sig, (pn, c, a, o) in sorted(known_hits.items()):
         C.log("suppressed (matches a recorded finding): %s on case %s" % (sig, c))
+    if violations and os.environ.get("VERIF_LIST_VIOLATIONS"):
+        # maintenance aid (tools/mkcorpus.py --prune): every violating case of this run, one per line
+        with open(os.path.join(C.WORK, "violations_%s.txt" % pid), "w") as fv:
+            for (pn_, c_, a_, m_, o_) in violations:
+                eng_ = [p for p in parts if p.name == pn_][0].engine
+                fv.write("%s\t%s\t%s\n" % (eng_, c_, o_))
     if violations:
         pn, c, a, m, o = violations[0]
         part = [p for p in parts if p.name == pn][0]
